@@ -271,6 +271,38 @@ def run(ctx):
            f'slice_database passes over a labelled statement without entering it into `{CUT}` (when ' + '; or when '.join(sorted(set(unregistered))[:2])
            + '): a later lemma whose proof refers to it can no longer be sliced - the statement has to be available as a hypothesis of '
            'later slices whether or not a slice is emitted for it', py.where(SLICER, scan_loop), facts={'paths': n_reg})
+    # the lemma's own block and the axiom registered for later slices are built from the same antecedents: every antecedent
+    # component the lemma's block is taken apart into (all names of the destructuring but the lemma itself) is handed BOTH to the
+    # slice builder and to the function that builds the registered axiom - a component that reaches only one of them (the block's
+    # own `$d` conditions, say) is missing from the lemma's slice or from every later one
+    reg_stores = [n for n in ast.walk(scan_loop) if isinstance(n, ast.Assign) and isinstance(n.targets[0], ast.Subscript)
+                  and isinstance(n.targets[0].value, ast.Name) and n.targets[0].value.id == CUT and isinstance(n.value, ast.Call)
+                  and isinstance(n.value.func, ast.Name) and n.value.func.id in py.modules[SLICER].functions]
+    splits = [n for n in ast.walk(scan_loop) if isinstance(n, ast.Assign) and isinstance(n.targets[0], ast.Tuple) and isinstance(n.value, ast.Call)
+              and isinstance(n.value.func, ast.Name) and n.value.func.id in py.modules[SLICER].functions
+              and all(isinstance(t, ast.Name) for t in n.targets[0].elts)]
+    sup_here = [c for c in sup_calls if any(c is x for x in ast.walk(scan_loop)) and len(c.args) >= 5]
+    if len(splits) == 1 and sup_here and reg_stores:
+        parts = [t.id for t in splits[0].targets[0].elts]
+        lemma = {ast.unparse(c.args[3]) for c in sup_here}
+        comps = [x for x in parts if x not in lemma]
+
+        def used(call_args):
+            return {x.id for a in call_args for x in ast.walk(a) if isinstance(x, ast.Name) and x.id in comps}
+        probs = []
+        for c in sup_here:
+            miss = [x for x in comps if x not in used([c.args[4]])]
+            if miss:
+                probs.append(f'`{", ".join(miss)}` does not reach the lemma\'s own slice (`{ast.unparse(c.args[4])}` is what is handed over)')
+        for st in reg_stores:
+            if not (used(st.value.args) & set(comps)) and not (set(ast.unparse(a) for a in st.value.args) & lemma):
+                continue                           # not the registration of the lemma
+            miss = [x for x in comps if x not in used(st.value.args)]
+            if miss and set(ast.unparse(a) for a in st.value.args) & lemma:
+                probs.append(f'`{", ".join(miss)}` does not reach the axiom registered for later slices (`{ast.unparse(st.value)[:60]}`)')
+        ctx.ob('slice-closure', 'lemma-antecedents-reach-slice-and-axiom', bool(comps) and not probs,
+               f'slice_database takes a lemma block apart into {parts}: ' + '; '.join(probs) + ' - the lemma\'s proof was checked under all '
+               'hypotheses and disjointness conditions of its block, and so must its slice and every later use be', py.where(SLICER, splits[0]))
     oa = OrderAnalysis(py)
     for s in oa.sites():
         if s.module != SLICER:
@@ -327,6 +359,7 @@ def run(ctx):
     disjoint_all_pairs(ctx, py)
     parser_state_fresh(ctx, py)
     variables_complete(ctx, py)
+    arguments_by_name(ctx, py)
     optional_fields(ctx, py)
     ctx.floor('encoder-exhaustive', 9)
     ctx.floor('keyword-agreement', 8)
@@ -702,6 +735,23 @@ def slice_closure(ctx, py: PyRepo):
                 return False
         return True
 
+    def preceding_binding(stmt, name):
+        """the value of the nearest assignment `name = <call-free expression>` before `stmt` in its own block, else None"""
+        for holder in ast.walk(fn):
+            for fld in ('body', 'orelse', 'finalbody'):
+                blk = getattr(holder, fld, None)
+                if isinstance(blk, list) and any(x is stmt for x in blk):
+                    k = next(i for i, x in enumerate(blk) if x is stmt)
+                    for prev in reversed(blk[:k]):
+                        stored = {x.id for x in ast.walk(prev) if isinstance(x, ast.Name) and isinstance(x.ctx, (ast.Store, ast.Del))}
+                        if name in stored:
+                            if isinstance(prev, ast.Assign) and len(prev.targets) == 1 and isinstance(prev.targets[0], ast.Name) \
+                                    and not any(isinstance(x, ast.Call) for x in ast.walk(prev.value)):
+                                return prev.value
+                            return None
+                    return None
+        return None
+
     def scanned(var, pat):
         """origins whose symbols are fed into `var` (pat: regex on the feeding call with group 1 = the scanned expression)"""
         out, last = set(), -1
@@ -728,8 +778,17 @@ def slice_closure(ctx, py: PyRepo):
                 if isinstance(src, ast.Name) and lp is not None and ast.unparse(lp.target) == src.id:
                     if unconditional_in_loop(n, lp):
                         out |= iter_origins(lp.iter)
-                else:
-                    out |= elt_origins(src) | (iter_origins(src) if isinstance(src, (ast.Tuple, ast.List, ast.BinOp)) else set())
+                    continue
+                # a local that names what is scanned: bound by the nearest preceding call-free assignment of the same block
+                if isinstance(src, ast.Name) and src.id not in (PROV, ESS):
+                    alias = preceding_binding(n, src.id)
+                    if alias is not None:
+                        if isinstance(alias, ast.Subscript) and ast.unparse(alias.value) == CUT and lp is not None \
+                                and ast.unparse(alias.slice) == ast.unparse(lp.target) and isinstance(lp.iter, ast.Name) and unconditional_in_loop(n, lp):
+                            out.add(f'{CUT}[{lp.iter.id}]')
+                            continue
+                        src = alias
+                out |= elt_origins(src) | (iter_origins(src) if isinstance(src, (ast.Tuple, ast.List, ast.BinOp)) else set())
         return out, last
 
     scan_c, last_c = scanned(VC, r'statements_get_constants\((.*)\)')
@@ -835,6 +894,60 @@ def slice_closure(ctx, py: PyRepo):
     ctx.analysed['slice: emission sites'] = len(emitted)
     ctx.analysed['slice: origins scanned'] = {'constants': sorted(scan_c), 'variables': sorted(scan_m)}
     ctx.floor('slice-closure', 12)
+
+
+def arguments_by_name(ctx, py: PyRepo):
+    """The slicer passes five same-shaped collections and pairs of statements between its functions, positionally, and no test
+    exercises it.  An argument that is spelled like a DIFFERENT parameter of the callee than the one it is bound to - a plain name
+    equal to another parameter's name, or an attribute `x.f` where `f` is another parameter's name - while that other parameter
+    receives something else, is two arguments exchanged (`construct_axiom(consequent, antecedents)`,
+    `AxiomaticStatement(consequent.terms, consequent.label)`).  Callees: the slicer's own functions and the node classes."""
+    mi = py.modules[SLICER]
+    ast_mod = py.modules[AST]
+    n = 0
+
+    def params_of(name):
+        if name in mi.functions:
+            g = mi.functions[name]
+            return [a.arg for a in g.args.args]
+        c = ast_mod.classes.get(name) or mi.classes.get(name)
+        if c is not None:
+            fields = [f for f, _t in c.fields]
+            for b in py.mro(c)[1:]:
+                if any(d.startswith('dataclass') for d in b.decorators):
+                    fields = [f for f, _t in b.fields if f not in fields] + fields
+            return fields or None
+        return None
+
+    def spelled(e):
+        if isinstance(e, ast.Name):
+            return e.id
+        if isinstance(e, ast.Attribute):
+            return e.attr
+        return None
+
+    for _mname, qn, f, _ci in py.all_functions():
+        if _mname != SLICER:
+            continue
+        for c in ast.walk(f):
+            if not (isinstance(c, ast.Call) and isinstance(c.func, ast.Name)):
+                continue
+            ps = params_of(c.func.id)
+            if not ps or any(isinstance(a, ast.Starred) for a in c.args) or len(c.args) > len(ps):
+                continue
+            names = [spelled(a) for a in c.args]
+            wrong = []
+            for i, nm in enumerate(names):
+                if nm is not None and nm in ps and ps.index(nm) != i and ps[i] != nm:
+                    j = ps.index(nm)
+                    other = names[j] if j < len(names) else None
+                    if other != nm:
+                        wrong.append(f'argument {i + 1} `{ast.unparse(c.args[i])}` is bound to `{ps[i]}` although the callee has a parameter `{nm}`')
+            if any(nm in ps for nm in names if nm):
+                n += 1
+                ctx.ob('slice-closure', f'arguments-by-name/{qn.split(".")[-1]}->{c.func.id}@{c.lineno - f.lineno}', not wrong,
+                       f'{qn}: {c.func.id}(..): ' + '; '.join(wrong) + ' - two arguments are exchanged', py.where(SLICER, c))
+    ctx.require(n >= 3, 'metamath_extract_slice: no call passes an argument under its parameter\'s name (rule arguments-by-name has nothing to decide)')
 
 
 def variables_complete(ctx, py: PyRepo):
